@@ -1,2 +1,112 @@
-def run_queries(qs, work, log):
-    return []
+"""Engine M driver (runs under plain python3): dumps the MIR of /repo's current working tree in a
+scratch copy, runs the queries with z3 (python3-vt), cross-checks dumped SMT-LIB2 with cvc5."""
+import os, json, subprocess, time, glob, re, shutil
+from concurrent.futures import ThreadPoolExecutor
+from vlib import scratch
+
+HERE = os.path.dirname(os.path.abspath(__file__))
+
+
+class MRes:
+    def __init__(self, q):
+        self.q = q
+        self.status = "inconclusive"
+        self.reason = ""
+        self.witnesses = []
+        self.unlisted = []
+        self.obligations = 0
+        self.discharged = 0
+        self.smt_queries = 0
+        self.solver_time = 0.0
+        self.functions = []
+        self.details = []
+
+
+def dump_mir(work, log):
+    d = os.path.join(work, "mir")
+    os.makedirs(d, exist_ok=True)
+    root = scratch.copy_repo(d)
+    out = os.path.join(d, "mir.txt")
+    t0 = time.time()
+    with open(out, "w") as fo, open(os.path.join(d, "rustc.err"), "w") as fe:
+        p = subprocess.run(["cargo", "+nightly", "rustc", "--offline", "--lib", "--target-dir", os.path.join(d, "t"),
+                            "--", "-Zunpretty=mir"], cwd=root, env=scratch.ENV, stdout=fo, stderr=fe)
+    if p.returncode != 0 or os.path.getsize(out) < 100000:
+        tail = open(os.path.join(d, "rustc.err"), errors="replace").read()[-800:]
+        return None, "MIR dump failed (rc=%d): %s" % (p.returncode, tail.replace("\n", " | "))
+    log("  [M] MIR dump of the working tree: %.1f MB in %.0fs" % (os.path.getsize(out) / 1e6, time.time() - t0))
+    shutil.rmtree(os.path.join(d, "t"), ignore_errors=True)
+    return out, ""
+
+
+def cvc5_check(path):
+    exp = open(path).readline().strip().replace("; expected: ", "")
+    try:
+        p = subprocess.run(["cvc5", "--lang", "smt2", "--strings-exp", "--tlimit=20000", path],
+                           stdout=subprocess.PIPE, stderr=subprocess.STDOUT, text=True, timeout=40)
+        out = p.stdout.strip().split("\n")
+        ans = [l for l in out if l in ("sat", "unsat", "unknown")]
+        if "(error" in p.stdout or not ans:
+            return ("error", exp, p.stdout[:200])
+        return (ans[0], exp, "")
+    except Exception as ex:
+        return ("error", exp, repr(ex))
+
+
+def run_queries(qs, work, log, tier="quick"):
+    res = [MRes(q) for q in qs]
+    mirp, why = dump_mir(work, log)
+    if not mirp:
+        for r in res:
+            r.reason = why
+        return res
+    qjson = os.path.join(work, "mir", "queries.json")
+    json.dump([{"name": q.name, "kind": q.kind, "params": q.params} for q in qs], open(qjson, "w"))
+    outp = os.path.join(work, "mir", "out.json")
+    smtdir = os.path.join(work, "mir", "smt2")
+    p = subprocess.run(["python3-vt", os.path.join(HERE, "runner.py"), mirp, qjson, outp, smtdir],
+                       stdout=subprocess.PIPE, stderr=subprocess.STDOUT, text=True)
+    if p.returncode != 0 or not os.path.exists(outp):
+        for r in res:
+            r.reason = "MIR query runner failed: " + p.stdout[-600:].replace("\n", " | ")
+        return res
+    out = json.load(open(outp))
+    # cvc5 cross-check of the dumped queries (all of them in thorough, a sample in quick)
+    files = sorted(glob.glob(os.path.join(smtdir, "*.smt2")))
+    cap = int(os.environ.get("VERIF_CVC5_SAMPLE", "0") or 0) or (10**9 if tier == "thorough" else 60)
+    byq = {}
+    for f in files:
+        byq.setdefault(os.path.basename(f).rsplit("_", 1)[0], []).append(f)
+    disagreements = {}
+    checked = {}
+    with ThreadPoolExecutor(max_workers=8) as ex:
+        for qn, fl in byq.items():
+            step = max(1, len(fl) // cap)
+            sel = fl[::step][:cap]
+            outs = list(ex.map(cvc5_check, sel))
+            checked[qn] = (len([o for o in outs if o[0] in ("sat", "unsat")]), len(outs))
+            bad = [(o, f) for o, f in zip(outs, sel) if o[0] in ("sat", "unsat") and o[1] in ("sat", "unsat") and o[0] != o[1]]
+            if bad:
+                disagreements[qn] = bad
+    for r in res:
+        o = out["results"].get(r.q.name)
+        if not o:
+            r.reason = "no result from runner"
+            continue
+        r.status = o["status"]
+        r.reason = o.get("reason", "")
+        r.witnesses = o["witnesses"]
+        r.obligations = o["obligations"]
+        r.discharged = o["discharged"]
+        r.smt_queries = o["smt_queries"]
+        r.solver_time = o["solver_time"]
+        r.functions = o["functions"]
+        r.details = o["details"]
+        c = checked.get(r.q.name)
+        if c:
+            r.details.append("cvc5 cross-check: %d of %d sampled SMT-LIB2 queries answered, all agree with z3" % c)
+        if r.q.name in disagreements:
+            r.status = "inconclusive"
+            r.reason = "z3 and cvc5 disagree on %d queries" % len(disagreements[r.q.name])
+        log("  [M] %-40s %-12s smt=%d oblig=%d/%d %s" % (r.q.name, r.status, r.smt_queries, r.discharged, r.obligations, r.reason[:200]))
+    return res
